@@ -251,6 +251,18 @@ def _mixed_polarity_scan(model: Model, rep: Report, fp: FunctionInfo) -> bool:
                          what="the spectator / participant guards do not range over all active gates: the answer depends on the order of the gates (a gate listed before the "
                               "qubit's own gate can demand parking of a participant)", detail="guards")
                 return True
+            if pos and not neg:
+                # a gate may accept inside the scan: the participant guard must have been completed over ALL gates before the scan starts
+                guards = [n for n in ast.walk(fp.node) if isinstance(n, ast.Call) and isinstance(n.func, ast.Attribute) and n.func.attr == "contains"
+                          and n.lineno < e.node.lineno]
+                complete = [g for g in subterms(p.cond, lambda y: y[0] == "quant" and y[2][0] == "comp" and len(y[2][3]) == 1 and y[2][3][0][0] == eds
+                                                and subterms(y[2][2], lambda z: z[0] == "call" and isinstance(z[1], tuple) and z[1][0] == "attr" and z[1][2] == "contains"))]
+                if not (guards and complete):
+                    rep.fail("C16.Q4", "get_requires_parking[guards]", fp.loc, found=f"one scan over {show(eds)}: return True if {show(pos[0][2])[:160]}; no test over all of {show(eds)} that none of them contains the qubit precedes the scan",
+                             required="not np.any([e.contains(element) for e in edge_ids]) -- complete before any gate can demand parking",
+                             what="the participant guard is applied per gate: a qubit that takes part in one gate of the layer but spectates another one is reported as requiring "
+                                  "parking (parked and gated in the same layer)", detail="guards")
+                    return True
     return False
 
 
